@@ -755,7 +755,16 @@ impl Sink<Bytes> for Substream {
                 Poll::Ready(Err(error)) => return Poll::Ready(Err(error.into())),
                 Poll::Pending => {
                     self.pending_out_frame = Some(pending_frame);
-                    break;
+
+                    // The transport didn't accept the frame so the flush is not complete, even
+                    // if the transport itself has nothing left to flush. Flush the transport
+                    // anyway to drive the already-written bytes forward and to surface errors.
+                    //
+                    // The `Poll::Pending` returned by `poll_write()` has registered the waker.
+                    return match poll_flush!(&mut self.substream, cx) {
+                        Poll::Ready(Err(error)) => Poll::Ready(Err(error.into())),
+                        Poll::Ready(Ok(())) | Poll::Pending => Poll::Pending,
+                    };
                 }
                 Poll::Ready(Ok(nwritten)) => {
                     pending_frame.advance(nwritten);
